@@ -124,6 +124,8 @@ impl RdfStore {
                 return false;
             }
         }
+        #[cfg(grafeo_verif)]
+        grafeo_common::verif::yield_point("rdf.insert.after_primary");
 
         // Update indexes
         {
@@ -168,6 +170,8 @@ impl RdfStore {
         if !removed {
             return false;
         }
+        #[cfg(grafeo_verif)]
+        grafeo_common::verif::yield_point("rdf.remove.after_primary");
 
         // Update indexes
         {
